@@ -17,6 +17,7 @@ macro_rules! dispatch {
             "C16" => $f(&props::c16::C16 $(, $arg)*),
             "C17" => $f(&props::c17::C17 $(, $arg)*),
             "C18" => $f(&props::c18::C18 $(, $arg)*),
+            "C19" => $f(&props::c19::C19 $(, $arg)*),
             "C20" => $f(&props::c20::C20 $(, $arg)*),
             "C13" => $f(&props::c13::C13 $(, $arg)*),
             "C08" => $f(&props::c08::C08 $(, $arg)*),
